@@ -1,5 +1,5 @@
 # replay of a bounded stand-in violation (C16): re-run native/c16_states.py
 import sys
-print('n=2 pure=True gaussian: quad_expectation(1,0.0) = [-0.02294, 0.594] on fock, [0.62239, 0.64302] on gaussian')
+print('fock n=3 pure=True gaussian: parity_expectation([1]) = 0.96702 but sum_n (-1)^n p(n) from reduced_dm = 0.99814')
 print('REPLAY-VIOLATION')
 sys.exit(1)
